@@ -173,6 +173,8 @@ func runC03(c *Cfg) {
 	})
 	// 1c. Connect calls made from inside a running node's callbacks (the pair is looked up when the node has finished)
 	mcs := append(midConnectCases(), actionPayloadCases()...)
+	mcs = append(mcs, wideRouterCases()...)
+	mcs = append(mcs, selfLoopThenEndCases()...)
 	parallel(c, len(mcs), func(i int) {
 		judgeFor(c, "C03", "connect-while-running", mcs[i])
 		if len(mcs[i].MidConnect) > 0 {
